@@ -837,7 +837,7 @@ class Standard(Output):
             yy = np.zeros(len(x), 'float')
             if axis in [verif.axis.Threshold(), verif.axis.Obs(), verif.axis.Fcst()]:
                 for i in range(len(intervals)):
-                    yy[i] = self._metric.compute(data, f, axis, intervals[i])
+                    yy[i] = self._metric.compute(data, f, axis, intervals[i])[0]
             else:
                 # Average all thresholds
                 for i in range(len(intervals)):
